@@ -80,11 +80,20 @@ def Err.isValidation : Err → Bool
   | .verify => true
   | _ => false
 
+/-- the family of a class name that came through `excClass` (a plain ValueError of `from_tx` is the
+    family `valueerr`, not a stray `py:` class) -/
+def excOfClass (c : String) : Exc :=
+  if c = "ValueError" then .valueerr
+  else match [Exc.trunc, .sererr, .validation, .addrerr, .b58err, .b58checksum, .bech32err, .rpcerr].find?
+      (fun e => e.family == c) with
+    | some e => e
+    | none => .py c
+
 def Err.toExc : Err → Exc
   | .eval _ => .validation
   | .verify => .validation
   | .invalid _ => .invalidscript
-  | .py c => .py c
+  | .py c => excOfClass c
 
 abbrev M := Except Err
 
